@@ -294,10 +294,17 @@ trait RH {
     fn digest_bytes(a: &[Self::F]) -> [u8; 32];
     fn digest_ser(a: &[Self::F]) -> Vec<u8>;
     fn digest_de(b: &[u8]) -> Result<(Vec<Self::F>, usize), String>;
+    /// the conversion impls of the digest type: (`[u8; 32]` from the digest, the elements back out of a digest made
+    /// `From` the array), `as_bytes` / `as_elements` where the type has no such impls
+    fn digest_conv(a: &[Self::F]) -> ([u8; 32], Vec<Self::F>);
+    /// `digests_as_elements` of the two digests, the default digest, `write_into` on a writer that already holds a byte
+    fn digest_slices(a: &[Self::F], b: &[Self::F]) -> (Vec<Self::F>, Vec<Self::F>, Vec<u8>);
+    /// `apply_jive_summation` where the hasher has one
+    fn jive_sum(init: &[Self::F], fin: &[Self::F]) -> Option<Vec<Self::F>>;
 }
 
 macro_rules! impl_rh {
-    ($t:ident, $h:ty, $f:ty, $name:expr, $spec:ident, $w:expr, $perm:expr, $round:expr) => {
+    ($t:ident, $h:ty, $f:ty, $name:expr, $spec:ident, $w:expr, $perm:expr, $round:expr, $conv:expr, $jsum:expr) => {
         struct $t;
         impl RH for $t {
             type F = $f;
@@ -379,8 +386,41 @@ macro_rules! impl_rh {
                     Err(_) => Err("err".into()),
                 }
             }
+            fn digest_conv(a: &[$f]) -> ([u8; 32], Vec<$f>) {
+                let f: fn([$f; 4]) -> ([u8; 32], [$f; 4]) = $conv;
+                let (b, e) = f(a.try_into().unwrap());
+                (b, e.to_vec())
+            }
+            fn digest_slices(a: &[$f], b: &[$f]) -> (Vec<$f>, Vec<$f>, Vec<u8>) {
+                type D = <$h as Hasher>::Digest;
+                let ds = [D::new(a.try_into().unwrap()), D::new(b.try_into().unwrap())];
+                let mut w: Vec<u8> = vec![0xa5];
+                ds[0].write_into(&mut w);
+                (D::digests_as_elements(&ds).to_vec(), D::default().as_elements().to_vec(), w)
+            }
+            fn jive_sum(init: &[$f], fin: &[$f]) -> Option<Vec<$f>> {
+                let f: Option<fn(&[$f; $w], &[$f; $w]) -> <$h as Hasher>::Digest> = $jsum;
+                f.map(|f| f(init.try_into().unwrap(), fin.try_into().unwrap()).as_elements().to_vec())
+            }
         }
     };
+}
+
+fn conv_rp64(a: [f64::BaseElement; 4]) -> ([u8; 32], [f64::BaseElement; 4]) {
+    type D = <Rp64_256 as Hasher>::Digest;
+    let d = D::from(a);
+    (<[u8; 32]>::from(d), <[f64::BaseElement; 4]>::from(d))
+}
+fn conv_jive(a: [f64::BaseElement; 4]) -> ([u8; 32], [f64::BaseElement; 4]) {
+    type D = <RpJive64_256 as Hasher>::Digest;
+    let d = D::from(a);
+    (<[u8; 32]>::from(d), <[f64::BaseElement; 4]>::from(d))
+}
+fn conv_rp62(a: [f62::BaseElement; 4]) -> ([u8; 32], [f62::BaseElement; 4]) {
+    // the 62-bit digest has no From impls: new / as_bytes / as_elements
+    type D = <Rp62_248 as Hasher>::Digest;
+    let d = D::new(a);
+    (d.as_bytes(), d.as_elements().try_into().unwrap())
 }
 
 impl_rh!(
@@ -391,7 +431,9 @@ impl_rh!(
     spec_rp64,
     12,
     Some(Rp64_256::apply_permutation),
-    Some(Rp64_256::apply_round)
+    Some(Rp64_256::apply_round),
+    conv_rp64,
+    None
 );
 impl_rh!(
     HJive,
@@ -401,9 +443,11 @@ impl_rh!(
     spec_jive,
     8,
     Some(RpJive64_256::apply_permutation),
-    Some(RpJive64_256::apply_round)
+    Some(RpJive64_256::apply_round),
+    conv_jive,
+    Some(RpJive64_256::apply_jive_summation)
 );
-impl_rh!(HRp62, Rp62_248, f62::BaseElement, "rp62", spec_rp62, 12, None, None);
+impl_rh!(HRp62, Rp62_248, f62::BaseElement, "rp62", spec_rp62, 12, None, None, conv_rp62, None);
 
 // ------------------------------------------------------------------------------------ judging
 
@@ -625,6 +669,48 @@ fn exec_rescue<H: RH>(t: &[&str]) -> Outcome {
             }
             o
         },
+        // twin entry points of the digest types (DESIGN 9.5 lesson 14): the From conversions next to new / as_bytes /
+        // as_elements, digests_as_elements (slice reinterpretation), Default, write_into on a non-empty writer
+        ["digconv", rest @ ..] if rest.len() == 8 => {
+            let Some(v) = nums(rest) else { return Outcome::ok("bad-op") };
+            if v.iter().any(|x| !H::F::raw_ok(*x)) {
+                return Outcome::ok("bad-op");
+            }
+            let es: Vec<H::F> = v.iter().map(|x| H::F::from_raw_word(*x)).collect();
+            let res: Vec<u128> = v.iter().map(|x| raw_val::<H::F>(*x)).collect();
+            let (b32, back) = H::digest_conv(&es[..4]);
+            let (flat, dflt, w) = H::digest_slices(&es[..4], &es[4..]);
+            let mut o = Outcome::ok(format!("{} {}", hex(&b32), join(&canon(&flat))));
+            if b32 != H::digest_bytes(&es[..4]) {
+                o = o.fail(format!("{}.digconv.bytes", H::NAME), "[u8; 32]::from(digest) differs from as_bytes()");
+            }
+            if canon(&back) != res[..4] || back.iter().zip(&es[..4]).any(|(x, y)| x.raw_word() != y.raw_word()) {
+                o = o.fail(format!("{}.digconv.elements", H::NAME), "the elements of Digest::from(array) are not the array");
+            }
+            if canon(&flat) != res || flat.iter().zip(&es).any(|(x, y)| x.raw_word() != y.raw_word()) {
+                o = o.fail(format!("{}.digconv.digests_as_elements", H::NAME), "digests_as_elements is not the elements of the digests in order");
+            }
+            if canon(&dflt) != vec![0u128; 4] {
+                o = o.fail(format!("{}.digconv.default", H::NAME), "the default digest is not all zero");
+            }
+            if w[0] != 0xa5 || w[1..] != H::digest_ser(&es[..4])[..] {
+                o = o.fail(format!("{}.digconv.write_into", H::NAME), "write_into does not append to_bytes()");
+            }
+            o
+        },
+        // RpJive64_256::apply_jive_summation: digest[i] = init[i] + init[4+i] + final[i] + final[4+i]
+        ["jivesum", rest @ ..] if rest.len() == 2 * sp.width => {
+            let Some(v) = nums(rest) else { return Outcome::ok("bad-op") };
+            if v.iter().any(|x| !H::F::raw_ok(*x)) {
+                return Outcome::ok("bad-op");
+            }
+            let es: Vec<H::F> = v.iter().map(|x| H::F::from_raw_word(*x)).collect();
+            let res: Vec<u128> = v.iter().map(|x| raw_val::<H::F>(*x)).collect();
+            let w = sp.width;
+            let Some(d) = H::jive_sum(&es[..w], &es[w..]) else { return Outcome::ok("bad-op") };
+            let expect: Vec<u128> = (0..4).map(|i| addmod(addmod(res[i], res[4 + i], m), addmod(res[w + i], res[w + 4 + i], m), m)).collect();
+            judge::<H>(Outcome::ok(join(&canon(&d))), "jivesum", &d, &expect, true)
+        },
         ["digread", h] => {
             let bytes = unhex(h);
             match H::digest_de(&bytes) {
@@ -652,6 +738,8 @@ trait BH {
     fn merge(a: &[u8], b: &[u8]) -> Vec<u8>;
     fn merge_int(a: &[u8], v: u64) -> Vec<u8>;
     fn hash_el<B: XFld, E: FieldElement<BaseField = B>>(e: &[E]) -> Vec<u8>;
+    /// (digests_as_bytes(bytes_as_digests(arrs)), as_bytes of the first (zeros for none), names of failed self-consistency checks)
+    fn digest_views(arrs: &[Vec<u8>]) -> (Vec<u8>, [u8; 32], Vec<&'static str>);
 }
 
 macro_rules! impl_bh {
@@ -677,6 +765,46 @@ macro_rules! impl_bh {
             }
             fn hash_el<B: XFld, E: FieldElement<BaseField = B>>(e: &[E]) -> Vec<u8> {
                 <$h<B> as ElementHasher>::hash_elements(e).to_bytes()
+            }
+            fn digest_views(arrs: &[Vec<u8>]) -> (Vec<u8>, [u8; 32], Vec<&'static str>) {
+                use winter_utils::ByteReader;
+                type D = <$h<f64::BaseElement> as Hasher>::Digest;
+                let raw: Vec<[u8; $n]> = arrs.iter().map(|a| a.as_slice().try_into().unwrap()).collect();
+                let ds: &[D] = D::bytes_as_digests(&raw);
+                let flat = D::digests_as_bytes(ds).to_vec();
+                let mut bad = vec![];
+                if ds.len() != raw.len() || ds.iter().zip(&raw).any(|(d, r)| *d != D::new(*r) || d.to_bytes() != r.to_vec()) {
+                    bad.push("new");
+                }
+                if D::default() != D::new([0u8; $n]) {
+                    bad.push("default");
+                }
+                // write_into appends exactly the N bytes; read_from takes exactly N bytes and refuses fewer
+                let mut w: Vec<u8> = vec![0xa5];
+                for d in ds {
+                    d.write_into(&mut w);
+                }
+                if w[0] != 0xa5 || w[1..] != flat[..] {
+                    bad.push("write_into");
+                }
+                let mut rd = SliceReader::new(&flat);
+                for d in ds {
+                    match D::read_from(&mut rd) {
+                        Ok(x) if x == *d => {},
+                        _ => {
+                            bad.push("read_from");
+                            break;
+                        },
+                    }
+                }
+                if rd.has_more_bytes() {
+                    bad.push("read_from.rest");
+                }
+                if !flat.is_empty() && D::read_from(&mut SliceReader::new(&flat[..$n - 1])).is_ok() {
+                    bad.push("read_from.short");
+                }
+                let first = ds.first().map(|d| d.as_bytes()).unwrap_or([0u8; 32]);
+                (flat, first, bad)
             }
         }
     };
@@ -785,6 +913,29 @@ fn exec_bytes<X: BH>(t: &[&str]) -> Outcome {
             let mut cat = a.clone();
             cat.extend_from_slice(&b);
             fed::<X>(Outcome::default(), "merge", &X::merge(&a, &b), &cat)
+        },
+        // ByteDigest: new / as_bytes / bytes_as_digests / digests_as_bytes / Default / write_into / read_from on a list of
+        // N-byte values (judged by the oracle only: the type is a plain byte container)
+        ["bdig", hs @ ..] => {
+            let arrs: Vec<Vec<u8>> = hs.iter().map(|h| unhex(h)).collect();
+            if arrs.iter().any(|a| a.len() != X::N) {
+                return Outcome::ok("bad-op");
+            }
+            let (flat, first32, problems) = X::digest_views(&arrs);
+            let mut o = Outcome::ok(format!("{} {}", hex(&flat), hex(&first32)));
+            let cat: Vec<u8> = arrs.iter().flatten().cloned().collect();
+            if flat != cat {
+                o = o.fail(format!("{}.bdig.slices", X::NAME), "digests_as_bytes(bytes_as_digests(v)) is not the concatenation of v");
+            }
+            if let Some(a) = arrs.first() {
+                if first32[..X::N] != a[..] || first32[X::N..].iter().any(|b| *b != 0) {
+                    o = o.fail(format!("{}.bdig.as_bytes", X::NAME), "as_bytes is not the value padded with zeros");
+                }
+            }
+            for pb in problems {
+                o = o.fail(format!("{}.bdig.{}", X::NAME, pb), "");
+            }
+            o
         },
         ["mergeint", a, v] => {
             let a = unhex(a);
@@ -1073,10 +1224,43 @@ fn gen_rescue<H: RH>(rng: &mut Rng, tier: Tier, n: usize, emit: &mut dyn FnMut(S
             d[i] = rng.u128() % rawlim;
         }
     }
+    // the conversion twins of the digest type on the same boundary digests (second digest random / boundary)
+    for w in limb_words(m, false).iter().chain([m, m + 1, 2 * m - 1].iter()).filter(|w| **w < rawlim) {
+        let other: Vec<u128> = (0..4).map(|_| rng.u128() % rawlim).collect();
+        emit(format!("{} digconv {} {}", h, join(&[*w; 4]), join(&other)));
+        emit(format!("{} digconv {} {}", h, join(&other), join(&[*w; 4])));
+        let mut d = [0u128; 4];
+        for i in 0..4 {
+            d[i] = *w;
+            emit(format!("{} digconv {} {}", h, join(&d), join(&[*w; 4])));
+            d[i] = rng.u128() % rawlim;
+        }
+    }
+    if sp.jive {
+        // apply_jive_summation: boundary words in every position of both states (sums that wrap once, twice, three times)
+        let wd = sp.width;
+        let words: Vec<u128> = limb_words(m, false).into_iter().filter(|w| *w < rawlim).collect();
+        for w in &words {
+            emit(format!("{} jivesum {}", h, join(&vec![*w; 2 * wd])));
+            for i in 0..2 * wd {
+                let mut st: Vec<u128> = (0..2 * wd).map(|_| rng.u128() % rawlim).collect();
+                st[i] = *w;
+                if i % 2 == 0 {
+                    st[(i + 4) % (2 * wd)] = *rng.pick(&words);
+                }
+                emit(format!("{} jivesum {}", h, join(&st)));
+            }
+        }
+        for _ in 0..(if big { 400 } else { 60 }) {
+            let st: Vec<u128> = (0..2 * wd).map(|_| if rng.chance(1, 4) { *rng.pick(&words) } else { rng.u128() % rawlim }).collect();
+            emit(format!("{} jivesum {}", h, join(&st)));
+        }
+    }
     let dl = if m == M62 { 31 } else { 32 };
     for k in 0..(if big { 300 } else { 40 }) {
         let d: Vec<u128> = (0..4).map(|_| rng.u128() % rawlim).collect();
         emit(format!("{} digest {}", h, join(&d)));
+        emit(format!("{} digconv {} {}", h, join(&d), join(&(0..4).map(|_| rng.u128() % rawlim).collect::<Vec<_>>())));
         let len = *rng.pick(&[dl, dl, dl, dl - 1, dl + 1, 0, 8]);
         let mut b = rng.bytes(len);
         if rng.chance(1, 3) {
@@ -1269,6 +1453,22 @@ fn gen_bytes<X: BH>(rng: &mut Rng, tier: Tier, n: usize, emit: &mut dyn FnMut(St
             emit(format!("{} mergeint {} {}", h, hex(&d), M64));
         }
     }
+    // the digest container itself: lists of 0..5 values with boundary fillings in every position
+    emit(format!("{} bdig", h));
+    for cnt in 1..=5usize {
+        for fill in [0u8, 0xff, 0x01, 0x80] {
+            for pos in 0..cnt {
+                let v: Vec<String> = (0..cnt).map(|i| if i == pos { hex(&vec![fill; X::N]) } else { hex(&rng.bytes(X::N)) }).collect();
+                emit(format!("{} bdig {}", h, v.join(" ")));
+            }
+        }
+    }
+    for _ in 0..(n / 4).max(20) {
+        let cnt = rng.range(1, 9) as usize;
+        let v: Vec<String> = (0..cnt).map(|_| hex(&rng.bytes(X::N))).collect();
+        emit(format!("{} bdig {}", h, v.join(" ")));
+    }
+    emit(format!("{} bdig {}", h, hex(&vec![1u8; X::N - 1])));
     for k in 0..n {
         let len = rng.range(0, 300) as usize;
         emit(format!("{} hash {}", h, hex(&rng.bytes(len))));
